@@ -41,6 +41,8 @@ CONSTANTS
   LitRetype = FALSE
   DepKinds = {}
   Edits = {}
+  TrustCachedID = FALSE
+  PrintReadsTyp = FALSE
   Observers = {"PrintModule", "PrintFunc", "PrintBlock", "QueryType", "QueryIdent", "QueryOperands", "QuerySuccs"}
   EmitFile = "transitions.ndjson"
 VIEW View
